@@ -20,7 +20,9 @@ def run(ctx):
              "(BlocksPerSession, ClaimSubmissionWindow, ClaimExpiration) drawn from (4,2,3) (3,2,2) (5,3,4)); per block 0-4 transactions drawn by a "
              "life-cycle agent over a pool of evidence sets (5-33 real relay proofs: AAT signed by the application key, relays signed by the client key, "
              "tree from GenerateRoot): claim in/before/after the window, for running, old, future and off-boundary session heights, from non-nodes, for "
-             "non-applications, unsupported and unstaked chains, over the allowance, inflated totals, duplicated leaves, both evidence types and twins; "
+             "non-applications, unsupported and unstaked chains, over the allowance, inflated totals, duplicated leaves, both evidence types and twins; header spellings: the application key in upper / mixed case hex in header and AATs (re-signed by the application key), "
+             "paired with the canonical spelling for the same (servicer, application, chain, session, type); a staked chain with a hex letter and its upper-case spelling; "
+             "claim + proof + claim + proof of one session inside the last block of the window; "
              "second claim under the same key; proof with the required index (from the real getPseudorandomIndex) or wrong index / wrong leaf / mutated sibling hash / "
              "mutated range / lied index / wrong level count / tampered leaf / other evidence type / wrong signer / identical bytes again / re-signed copy "
              "in the same and later blocks / too early / after overwrite / after expiry / never claimed; "
@@ -28,7 +30,8 @@ def run(ctx):
     ctx.trust("oracle inputs of the transition are computed by the harness with the real exported keeper functions on the state right before DeliverTx",
               "reward recipients/amounts recomputed from CalculateRelayReward/GetRewardCost/SplitNodeRewards (C26/C27 own the arithmetic)")
     ctx.assume("proof leaves are relay proofs (the challenge-leaf branch is proved about, not exercised)",
-               "parameters do not change during a history")
+               "parameters do not change during a history",
+               "header spelling is judged by the harness (text == lower-case hex of itself), not by pocket-core; the driver identifies sessions by canonical key (application name without spelling tag, lower-case chain)")
     n = 120 if ctx.thorough else 10
     ctx.stream("lifecycle", "c32", DRIVER, n=n, timeout=1500, drv_timeout=1500)
     if ctx.thorough:
